@@ -15,7 +15,7 @@ fi
 PROPS="$@"
 [ -z "$PROPS" ] && PROPS=$(python3 -c "import json;print(json.load(open('/verif/seeded/$S/meta.json')).get('property','${S:0:3}'))")
 for p in $PROPS; do
-  out=$(cd /verif && ./check $p --tier quick 2>&1); rc=$?
+  out=$(cd /verif && ./check $p --tier quick --no-evidence 2>&1); rc=$?
   echo "SEED $S prop $p exit=$rc"
   echo "$out" | grep -E "^(VIOLATION|UNDECIDED)" | cut -c1-260 | head -8
 done
